@@ -34,6 +34,7 @@ def handle (args : List String) : String :=
      | _, _ => "bad-op")
   | "xsch" :: _ => ZV.C20.X.handle args
   | "xpk" :: _ => ZV.C20.X.handle args
+  | "xpa" :: _ => ZV.C20.X.handle args
   | "xgn" :: _ => ZV.C20.X.handle args
   | "xpc" :: _ => ZV.C20.X.handle args
   | _ => "bad-op"
